@@ -627,3 +627,34 @@ pub fn runtime_functions<Ctx: crate::runtime::OptCtx>(
         })
         .collect()
 }
+
+/// The text one non-empty f-string text part decodes to, by the real
+/// `unescape_f_string_part` (`None`: it reports an escape error; `Err`: it
+/// panicked). The C06 harness rebuilds the same text from the MODEL's
+/// pieces — each decoded by the escaper alone ([`escaper_decoded`]), joined
+/// by the brace each brace escape stands for — and compares.
+pub fn f_string_part_decoded(text: &str) -> Result<Option<String>, String> {
+    std::panic::catch_unwind(std::panic::AssertUnwindSafe(|| {
+        crate::parser::Parser::verif_c06_unescape_f_string_part(text).ok()
+    }))
+    .map_err(|_| "panic".to_string())
+}
+
+/// `content` decoded by `rustc_literal_escaper::unescape_str` alone, as the
+/// inside of a string literal (`None`: it has a fatal escape error).
+pub fn escaper_decoded(content: &str) -> Option<String> {
+    let mut out = String::new();
+    let mut fatal = false;
+    rustc_literal_escaper::unescape_str(
+        content,
+        |_range: std::ops::Range<usize>, res| match res {
+            Ok(ch) => out.push(ch),
+            Err(e) => {
+                if e.is_fatal() {
+                    fatal = true;
+                }
+            }
+        },
+    );
+    if fatal { None } else { Some(out) }
+}
